@@ -49,6 +49,10 @@ def check(run):
     R.rule('C14.open', 'Pongs are refused only once a Close has really been attempted: close() enters the closing state '
                        'only after _send_close() returned', 4)
     interleave(R)
+    from . import C03
+    R.rule('C14.payload', 'the Pong leaves as built - same payload, never through the compressor (RSV1 only on data frames '
+                          'sent compressed)', 2)
+    C03.rsv1gate(R, RID='C14.payload')
     C08.onlyclose(R, RID='C14.open')
     before(R)
     branch(R)
